@@ -795,3 +795,14 @@ Proof.
   unfold echo_targets, direct_targets. rewrite H1, H2, H3. cbn.
   split; apply dispatcher_senders_in; assumption.
 Qed.
+
+(* ------------------------------------------------------------------------------------ *)
+(* Phase duration                                                                         *)
+(* ------------------------------------------------------------------------------------ *)
+
+Lemma phase_window src c delay :
+  phaser_ok src = true -> 0 <= delay < t_phase c -> arrives_in_phase src c delay = true.
+Proof.
+  intros Hs Hd. destruct src; try discriminate. unfold arrives_in_phase; cbn.
+  apply Z.ltb_lt. lia.
+Qed.
